@@ -66,7 +66,7 @@ def case_work(case):
     c1 = canonical(tr1)
     out = {"digest": digest(c1), "fills": any(o[2] != "0" for o in c1["orders"]), "steps": len(tr1.steps),
            "alarms": [(1, a) for a in lookahead_alarms(tr1)], "mismatch_mc": None,
-           "item": xd.coq_check_item(tr1.case, tr1) if exact else None}
+           "item": xd.coq_check_item(tr1.case, tr1) if (exact and not tr1.unobservable) else None}
     for mc in (2, 3, 4, 50):
         trm = xd.run_case(case, max_concurrent=mc)
         out["alarms"] += [(mc, a) for a in lookahead_alarms(trm)]
